@@ -639,6 +639,8 @@ def translate_fragment(text, fr, consts, known=None):
         if not m:
             raise Unsupported("fragment not found")
         e = m.group("e")
+    e = re.sub(r"//[^\n]*", "", e)                  # comments inside the expression
+    e = re.sub(r"\s*\.\s*(?=[A-Za-z_])", ".", e)     # rustfmt puts method chains on several lines
     for rx, rep in fr["subst"]:
         e = re.sub(rx, rep, e)
     p = Parser(tokenize(e), consts, None, dict(known or {}))
